@@ -442,6 +442,30 @@ struct Slot {
     /// keep the future alive after it has resolved, until a `release` op (a caller that holds a finished
     /// future, e.g. a pinned future in a select loop)
     keep: bool,
+    /// poll under tokio's cooperative budget instead of unconstrained
+    coop: bool,
+    /// the first poll happens in a task poll whose cooperative budget is already used up (a caller that did
+    /// 128 other things first); it is followed at once, in the same step, by an ordinary poll
+    burn: bool,
+}
+
+/// Use up what is left of the cooperative budget of the current task poll.
+fn burn_budget(cx: &mut Context<'_>) {
+    for _ in 0..4096 {
+        let mut f = Box::pin(tokio::task::consume_budget());
+        if f.as_mut().poll(cx).is_pending() {
+            return;
+        }
+    }
+}
+
+fn poll_slot(fut: &mut CallFut, cx: &mut Context<'_>, coop: bool) -> Poll<String> {
+    if coop {
+        fut.as_mut().poll(cx)
+    } else {
+        let mut u = tokio::task::unconstrained(std::future::poll_fn(|cx| fut.as_mut().poll(cx)));
+        Pin::new(&mut u).poll(cx)
+    }
 }
 
 #[derive(Default)]
@@ -480,9 +504,11 @@ impl Callers {
     /// `coop`: poll under tokio's cooperative budget (default: unconstrained, so that the budget of the
     /// harness's own task never makes a resource spuriously pending)
     pub fn insert_opts(&mut self, c: usize, fut: CallFut, keep: bool, coop: bool) {
+        self.insert_full(c, fut, keep, coop, false)
+    }
+    pub fn insert_full(&mut self, c: usize, fut: CallFut, keep: bool, coop: bool, burn: bool) {
         self.seen.insert(c);
-        let fut: CallFut = if coop { fut } else { Box::pin(tokio::task::unconstrained(fut)) };
-        self.slots.insert(c, Slot { fut, flag: Arc::new(Flag::new(true)), polled: false, keep });
+        self.slots.insert(c, Slot { fut, flag: Arc::new(Flag::new(true)), polled: false, keep, coop, burn });
     }
     pub fn release(&mut self, c: usize) {
         if let Some(slot) = self.kept.remove(&c) {
@@ -512,7 +538,16 @@ impl Callers {
         let before = log_len();
         let waker = Waker::from(slot.flag.clone());
         let mut cx = Context::from_waker(&waker);
-        let r = catch_unwind(AssertUnwindSafe(|| slot.fut.as_mut().poll(&mut cx)));
+        let (coop, burn_now) = (slot.coop, slot.burn && !slot.polled);
+        let r = catch_unwind(AssertUnwindSafe(|| {
+            if burn_now {
+                burn_budget(&mut cx);
+                if let Poll::Ready(v) = slot.fut.as_mut().poll(&mut cx) {
+                    return Poll::Ready(v);
+                }
+            }
+            poll_slot(&mut slot.fut, &mut cx, coop)
+        }));
         let was_polled = slot.polled;
         slot.polled = true;
         let _ = was_polled;
@@ -587,7 +622,7 @@ pub async fn run_ops(mw: &mut dyn Mw, ops: &[String]) {
                         callers.seen.insert(c);
                         let kv = Kv::parse(&words[2..]);
                         if let Some(f) = mw.arrive(c, &kv) {
-                            callers.insert_opts(c, f, kv.u64("keep", 0) == 1, kv.u64("coop", 0) == 1);
+                            callers.insert_full(c, f, kv.u64("keep", 0) == 1, kv.u64("coop", 0) == 1, kv.u64("burn", 0) == 1);
                         }
                     }
                 }
